@@ -62,6 +62,12 @@ CHECKS = {
         note="Expected values follow from the generator's atoms (no parsing shared with the code under test); a leading-dash value attached to -isystem/-include is outside the generated domain (spelling collides with other real options).",
         ref="2 C11",
     ),
+    "C12": dict(
+        technique="property-based testing: Hypothesis-generated .cbi/config files x command lines vs an independent interpreter of the documented rules; metamorphic relations (implicit==explicit, purity); exhaustive built-in flag combinations",
+        text="Generated-input search over compiler configuration files (new compilers, alias chains incl. loops and dangling targets, options, append_const/store_split/extend_match rules, modes, passes, redefinitions of built-ins) crossed with command lines enabling subsets of their flags in both spellings. Per pass, the ordered command-line part and the multiset contributed by passes/modes are compared with a model interpreter that reads the built-in TOML files itself; implicit options must equal explicit ones, parsing must be pure across commands, alias problems must be reported; every documented flag combination of the four built-in files is enumerated; guarded lines are attributed through finder.find iff some pass defines the macro. Bounded exploration.",
+        note="Trusts the ~120-line model interpreter in checks/c12.py; contributions of several active modes are compared as multisets; generated configurations are validated against the repository's schema.",
+        ref="2 C12",
+    ),
     "C13": dict(
         technique="property-based testing: Hypothesis databases with generated path spellings vs independent path model + reference preprocessor model, differential against gcc -E run from the entry's directory",
         text="Generated-input search over compilation databases whose entries spell directory/file/-I absolutely, relative to the root or to a build directory (inside and outside the root) with ./ and .. segments, as command strings or argument arrays, mixed with entries that must be skipped. entry['file'] and entry['include_paths'] are compared with a path model, per-line attribution with the preprocessor model on canonical paths; gcc -E with the entry's own arguments run from the entry's directory validates both. Every skipped entry must be named by a WARNING, nothing may raise, unnamed files get no platform. Bounded exploration.",
